@@ -256,6 +256,11 @@ func TestVerifC15(t *testing.T) {
 	for i, u := range instants {
 		tms[i] = time.Unix(u, 0).UTC()
 	}
+	// The same instants as a flush tick carries them: in the zone of the process, whatever that is.
+	// Intervener.Mutes (what the mute/active stages call) must give the calendar answer for them too.
+	tokyo, _ := time.LoadLocation("Asia/Tokyo")
+	newYork, _ := time.LoadLocation("America/New_York")
+	carried := []*time.Location{tokyo, newYork, time.FixedZone("+0530", 5*3600+1800)}
 	for name, loc := range locOf {
 		c := make([]c15Civil, len(instants))
 		for i, u := range instants {
@@ -270,6 +275,9 @@ func TestVerifC15(t *testing.T) {
 		err := yaml.UnmarshalStrict([]byte(y), &ti)
 		u := int64(rp["unix"].(float64))
 		got := err == nil && ti.ContainsTime(time.Unix(u, 0).UTC())
+		if z, ok := rp["carried"].(float64); ok && err == nil {
+			got, _, _ = NewIntervener(map[string][]TimeInterval{"i": {ti}}).Mutes([]string{"i"}, time.Unix(u, 0).In(carried[int(z)]))
+		}
 		fmt.Printf("REPLAY spec:\n%s\ninstant %s parse-err=%v ContainsTime=%v reference=%v\n", y, time.Unix(u, 0).UTC(), err, got, rp["want"])
 		R := rep.New("C15", "predicate")
 		R.Executions = 1
@@ -332,6 +340,26 @@ func TestVerifC15(t *testing.T) {
 								}
 							}
 							R.Executions += int64(len(tms))
+							// through the Intervener, the instant carried in a non-UTC zone (quick: zone i mod 3; thorough: all three)
+							iv := NewIntervener(map[string][]TimeInterval{"i": {ti}})
+							for i, tm := range tms {
+								for z := range carried {
+									if !thorough && z != i%len(carried) {
+										continue
+									}
+									R.Executions++
+									got, names, err := iv.Mutes([]string{"i"}, tm.In(carried[z]))
+									want := s.ref(cz[i])
+									if err != nil || got != want || (got && (len(names) != 1 || names[0] != "i")) {
+										bad++
+										if bad == 1 && R.NViolations < 30 {
+											desc := fmt.Sprintf("interval {%s} at %s carried in zone %s: Intervener.Mutes=%v %v (err %v), calendar says %v",
+												strings.ReplaceAll(y, "\n", "; "), tm.Format(time.RFC3339), carried[z], got, names, err, want)
+											R.Violate("intervener-differs-from-calendar", desc, map[string]any{"part": "predicate", "yaml": y, "unix": instants[i], "want": want, "desc": desc, "carried": z})
+										}
+									}
+								}
+							}
 							if nspec%50 == 1 {
 								R.AddKey(y)
 							}
@@ -345,7 +373,7 @@ func TestVerifC15(t *testing.T) {
 	R.AddKey("true")
 	R.AddKey("false")
 	R.Exhaustive = !timedOut
-	R.Bound = fmt.Sprintf("full product of field alphabets: %d time x %d weekday x %d day-of-month x %d month x %d year x %d location specs = %d, x %d instants (grid of %d min over 2023-12-25..2025-03-05, +-3h minute grid around %d zone transitions, the 2011 Apia date-line skip)",
+	R.Bound = fmt.Sprintf("full product of field alphabets: %d time x %d weekday x %d day-of-month x %d month x %d year x %d location specs = %d, x %d instants (grid of %d min over 2023-12-25..2025-03-05, +-3h minute grid around %d zone transitions, the 2011 Apia date-line skip); each (spec, instant) through ContainsTime(UTC value) and through Intervener.Mutes with the instant carried in Asia/Tokyo, America/New_York, +05:30 (quick: one of the three per instant)",
 		len(fT), len(fW), len(fD), len(fM), len(fY), len(fL), len(fT)*len(fW)*len(fD)*len(fM)*len(fY)*len(fL), len(instants), gridStep/60, ntrans)
 	R.Extra["family"] = map[string]any{"specs_this_shard": nspec, "instants": len(instants), "evaluations_true": trueCount, "specs_rejected_by_parser": rejected}
 	R.Sample(map[string]any{"spec": "times: [{start_time: '09:00', end_time: '17:00'}]; days_of_month: ['-3:-1']; location: 'Australia/Lord_Howe'", "instants": len(instants)})
